@@ -68,8 +68,11 @@ def model_op(op):
     if name in ('update', 'ior'):
         pairs = dpairs(op[1])
         form = op[2] if len(op) > 2 else 'dict'
-        if form in ('dict', 'kwargs'):
+        if form in ('dict', 'kwargs', 'bothdict'):
             pairs = list(dict(pairs).items())
+        if form in ('both', 'bothdict'):
+            # positional items first, then the keyword items, one assignment each
+            pairs = pairs + list(dict(dpairs(op[3])).items())
         return (name, pairs)
     if name in ('eq', 'ne'):
         return (name, list(dict(dpairs(op[1])).items()))
@@ -94,6 +97,8 @@ class Ctx:
                 self.sched.yield_point(('on_miss',))
             if isinstance(key, tuple) and key[:1] == ('side',):
                 return ('miss', key)
+            if kind == 'raises' and M.on_miss_raises(key):
+                raise LookupError('no such record: %r' % (key,))
             if kind == 'reent_same':
                 # a read-ahead loader: stores the missing key itself before returning its value
                 self.cache[key] = ('pre', key)
@@ -170,6 +175,12 @@ def exec_op(c, op, ctx):
                 c.update(pairs)
             elif form == 'iter':
                 c.update(iter(pairs))
+            elif form == 'both':
+                kw = dict(dpairs(op[3]))
+                c.update(pairs, **kw)
+            elif form == 'bothdict':
+                kw = dict(dpairs(op[3]))
+                c.update(dict(pairs), **kw)
             else:
                 c.update(**dict(pairs))
             return ('ok', None), None
@@ -226,13 +237,27 @@ def keys_outcome_from_model(d):
     return ('keys', len(d), {k: None for k in d})
 
 
-def probe(c, max_size):
+def probe(c, max_size, order_limit=400):
     """Contents, length and eviction order (oldest -> newest) via the public API:
-    insert max_size fresh keys one at a time and record which key disappears."""
+    insert max_size fresh keys one at a time and record which key disappears.
+    For very large caches (max_size > order_limit) only contents and length are probed
+    (the order probe is quadratic); res['order'] is then None."""
     res = {'error': None, 'over_capacity': False}
     items = dict(c)
     res['items'] = items
     res['len'] = len(c)
+    if max_size > order_limit:
+        res['order'] = None
+        res['left'] = []
+        try:
+            c[('probe', 0)] = 0              # still usable?
+            if len(c) > max_size:
+                res['over_capacity'] = True
+        except threadsim.SimAbort:
+            raise
+        except Exception as e:
+            res['error'] = type(e).__name__
+        return res
     order = []
     prev = dict(items)
     original = dict(items)
